@@ -1,7 +1,7 @@
 import N0Verif.Proto
 import N0Verif.Val
 import N0Verif.Model.Esc
-/-! driver operations of the delimited-text model (C17): `esc.split`, `esc.spec`, `esc.dlist`,
+/-! driver operations of the delimited-text model (C17): `esc.split`, `esc.spec`, `esc.ref`, `esc.cls`, `esc.dlist`,
 `esc.kv`, `esc.ddict`, `esc.ser`, `esc.unesc`, `esc.rt`, `esc.rtf`, `esc.ddu`, `esc.dlol`, `esc.dfix`, `esc.gvt` -/
 namespace N0.Drv.Esc
 open N0 N0.Proto N0.Esc
@@ -55,6 +55,14 @@ def handle (toks : List String) : Option String :=
       if d.isEmpty then some "err ValueError"
       else some ("ok " ++ encStrs (splitSpec e d tr [] (splitMax d m s)))
     | _, _, _, _, _ => some "bad-op"
+  | ["esc.ref", s, d, m, e, tr] =>
+    match decStr s, decStr d, parseNat m, optChar e, parseBool tr with
+    | some s, some d, some m, some e, some tr => some (showStrs (splitRef s d m e tr))
+    | _, _, _, _, _ => some "bad-op"
+  | ["esc.cls", s, d, m, e] =>
+    match decStr s, decStr d, parseNat m, char1 e with
+    | some s, some d, some m, some e => some (if escWithin e d (limOf m) 0 [] s then "ok T" else "ok F")
+    | _, _, _, _ => some "bad-op"
   | ["esc.dlist", s, d, pe, e] =>
     match decStr s, decStr d, parseBool pe, optChar e with
     | some s, some d, some pe, some e => some (showStrs (deserializeList s d pe e))
